@@ -1,5 +1,18 @@
-"""Regenerated fact tables: /verif/extract reads /repo's sources, writes lean/WireV/Generated/*.lean."""
+"""Regenerated fact tables: /verif/extract reads /repo's sources, writes lean/WireV/Generated/Tables.lean."""
+import os
+
+from .common import V, BUILD, run
 
 
-def regenerate(rep):
-    return
+def regenerate(rep=None):
+    exe = BUILD + "/extract"
+    src = V + "/extract/main.go"
+    if not os.path.exists(exe) or os.path.getmtime(exe) < os.path.getmtime(src):
+        rc, out, err = run(["go", "build", "-o", exe, "."], cwd=V + "/extract")
+        if rc != 0:
+            raise RuntimeError("extract build failed: " + err)
+    rc, out, err = run([exe, "/repo", V + "/lean/WireV/Generated/Tables.lean"])
+    if rc != 0 and rep is not None:
+        rep.violation("extraction", {"what": "the fact extractor no longer recognises the shape of a function it reads "
+                                             "(regenerated obligations cannot be stated)", "log": (out + err)[-1500:]}, no_input=True)
+    return rc == 0
